@@ -67,6 +67,17 @@ impl Buildpack for TestBuildpack {
             "pass_plan" => DetectResultBuilder::pass()
                 .build_plan(BuildPlanBuilder::new().provides("verif").requires("verif").or().provides("alt").build())
                 .build(),
+            // several entries per alternative: exposes any order-sensitivity of the plan writer (C20)
+            "pass_plan_multi" => DetectResultBuilder::pass()
+                .build_plan(
+                    BuildPlanBuilder::new()
+                        .provides("p1").provides("p2").provides("p3").provides("p4").provides("p5")
+                        .requires("r1").requires("r2").requires("r3")
+                        .or()
+                        .provides("q1").provides("q2").provides("q3").requires("s1").requires("s2")
+                        .build(),
+                )
+                .build(),
             "fail" => DetectResultBuilder::fail().build(),
             _ => Err(Error::BuildpackError(BpError)),
         }
